@@ -279,6 +279,20 @@ func (d *Driver) RunBinaryFree(deadline time.Duration, args ...string) *Outcome 
 	return o
 }
 
+// RunBinaryProcs executes the real binary with the given GOMAXPROCS ("" = all CPUs).
+func (d *Driver) RunBinaryProcs(procs string, args ...string) *Outcome {
+	c := exec.Command(BinaryPath, args...)
+	for _, kv := range os.Environ() {
+		if !strings.HasPrefix(kv, "GOMAXPROCS=") {
+			c.Env = append(c.Env, kv)
+		}
+	}
+	if procs != "" {
+		c.Env = append(c.Env, "GOMAXPROCS="+procs)
+	}
+	return d.runCmd(c)
+}
+
 // RunBinary executes the real binary in the driver's scratch directory.
 func (d *Driver) RunBinary(args ...string) *Outcome {
 	return d.runCmd(exec.Command(BinaryPath, args...))
